@@ -639,3 +639,25 @@ def lift(t, budget=200):
             return y
         return tuple(go(i) if isinstance(i, tuple) else i for i in x)
     return go(t)
+
+
+def canon_union(v):
+    """`the union over the elements x of L of F(x)` in one spelling: (L, F over ('at', L)) - from `for x in L { result.extend(F(x)) }`,
+    `L.iter().flat_map(F).collect()` and `L.iter().map(F).flatten().collect()`; None for anything else"""
+    v = strip_acc(v) if isinstance(v, tuple) and v[:1] == ("acc",) else v
+    if isinstance(v, tuple) and v[:1] == ("upd",) and v[2] in ("extend", "append") and len(v[3]) == 1 and isinstance(v[1], tuple) and v[1][:1] == ("acc",) \
+            and isinstance(v[1][1], tuple) and v[1][1][:1] == ("call",) and v[1][1][1].endswith(("::new", "::default")) and not v[1][1][2]:
+        T = v[3][0]
+        eachs = {x for x in sym.subterms(T) if isinstance(x, tuple) and len(x) == 2 and x[0] == "each"}
+        if len(eachs) == 1:
+            e = eachs.pop()
+            L = norm(e[1])
+            return L, norm(replace(T, {e: ("at", L)}))
+        return None
+    if isinstance(v, tuple) and v[:2] == ("call", "Iterator::flat_map") and len(v[2]) == 2:
+        L = norm(v[2][0])
+        return L, norm(_app(v[2][1], ("at", L)))
+    if isinstance(v, tuple) and v[:2] == ("call", "Iterator::flatten") and len(v[2]) == 1 and isinstance(v[2][0], tuple) and v[2][0][:2] == ("call", "Iterator::map"):
+        L = norm(v[2][0][2][0])
+        return L, norm(_app(v[2][0][2][1], ("at", L)))
+    return None
